@@ -369,6 +369,11 @@ func LoadFromViper(inputViper *viper.Viper) (Config, error) {
 func loadFromViper(v *viper.Viper, home string) (Config, error) {
 	cfg := DefaultConfig
 	cfg.RootDir = home
+	if DefaultConfig.Instrumentation != nil {
+		// decode into a copy: the struct copy above shares the pointer with DefaultConfig
+		instrumentation := *DefaultConfig.Instrumentation
+		cfg.Instrumentation = &instrumentation
+	}
 
 	decoder, err := mapstructure.NewDecoder(&mapstructure.DecoderConfig{
 		DecodeHook: mapstructure.ComposeDecodeHookFunc(
